@@ -1,7 +1,10 @@
 #!/bin/bash
 # tools/try_batch.sh <slot> <mutant dirs...>  - run try_mutant.sh on each, append RESULT lines to /tmp/mutrun/results.txt
+# One batch per slot at a time: a second batch on the same slot waits for the first (flock).
 SLOT=$1; shift
 mkdir -p /tmp/mutrun
+exec 8> /tmp/mutrun/slot$SLOT.lock
+flock 8
 for m in "$@"; do
   key="$(basename $(dirname $m))/$(basename $m)"
   if grep -q "^RESULT $key " /tmp/mutrun/results.txt 2>/dev/null; then continue; fi
